@@ -2294,9 +2294,12 @@ impl Lexer<'_> {
                 if is_valid_unicode_sas_name_start(c) || (!first_token && is_xid_continue(c)) {
                     // A macro string in place of macro identifier
                     // First checkpoint BEFORE consuming! See above why.
-                    // If we do not have a bug, it may not be set yet, so this call
-                    // is safe.
-                    self.checkpoint();
+                    // It may already be set if a macro comment separates two parts
+                    // of the name (`a%*c;b`). In this case we keep the earlier one, as
+                    // on rollback the whole name must be re-lexed as a value.
+                    if self.checkpoint.is_none() {
+                        self.checkpoint();
+                    }
 
                     // Consume as identifier, no reserved words here,
                     // so we do not need the full lex_identifier logic
